@@ -94,6 +94,26 @@ def _stub(ns, c, name, uid, light=False):
     return n
 
 
+def _plain_stub(ns, c, name, uid, hasv):
+    """an existing AST without annotations, depth symbolic, with one variable of its own or none"""
+    Base = ns["Base"]
+    n = object.__new__(Base)
+    n.op, n.args, n.length = "BVS", (name,), 8
+    d = SymInt(z3.BitVec(f"depth_{name}", proxies.IW))
+    c.assume(z3.And(d.z >= 1, d.z <= 1000))
+    c.watch[f"depth_{name}"] = d.z
+    n.depth = d
+    n.variables = frozenset({f"v_{name}"}) if hasv else frozenset()
+    n.symbolic = bool(n.variables)
+    n.annotations = ()
+    n._uneliminatable_annotations = frozenset()
+    n._relocatable_annotations = frozenset()
+    n._errored = set()
+    n._hash = 1000 + uid
+    n._cached_encoded_name = None
+    return n
+
+
 def _post(c, where, r, op, args, kids, given_annos, skip, given_vars, given_sym, add_vars, length):
     c.n_vcs += 1
     if r.op != op or tuple(r.args) != tuple(args) or r.length != length:
@@ -371,3 +391,69 @@ def replay_make_like(failure=None):
     e = (claripy.BVV(0xFF, 16) & claripy.Concat(y, xa))[7:0]
     bad = e.op == "BVS" and (not e.variables or not e.symbolic)
     return {"reproduced": bool(bad), "text": f"(BVV(0xff, 16) & Concat(y, x.annotate(A())))[7:0] = {e!r}: op {e.op}, variables {set(e.variables)}, symbolic {e.symbolic}"}
+
+
+def non_leaf_operation_names():
+    """every operation name that claripy/operations.py mentions in a module-level set, frozenset, dict or list, minus the leaf operations: the
+    names a membership test in Base.__new__ / make_like could single out"""
+    import claripy.operations as O
+    names = set()
+    for k, v in vars(O).items():
+        if k.startswith("__"):
+            continue
+        if isinstance(v, (set, frozenset, dict, list, tuple)):
+            names |= {x for x in v if isinstance(x, str)}
+    return sorted(n for n in names - set(O.leaf_operations) if n and not n.startswith("_") or n.startswith("__"))
+
+
+def ob_make_like_ops(tier="quick"):
+    """make_like for EVERY non-leaf operation name (the other make_like obligations build __add__ / __and__): the rebuilt node's variables,
+    symbolic flag and depth are those of its NEW arguments, whatever the operation is called and whatever node make_like is called on -
+    same operation with new arguments (every rebuilding traversal), and another node's make_like building this operation (the rewriters)."""
+    proxies.set_iw(24)
+    ops = non_leaf_operation_names()
+
+    def body(c):
+        ns = _c.get("ns") or _c.setdefault("ns", load_base())
+        Base = ns["Base"]
+        Base._hash_cache = weakref.WeakValueDictionary()
+        op = ops[c.choose([True] * len(ops), "operation")]
+        shape = c.choose([True, True], "called-on")
+        # the operands: the first of each pair has a variable of its own, the second may be variable-free (metadata symbolic as in _stub, but
+        # without annotations: they are the subject of the other make_like obligations)
+        old = tuple(_plain_stub(ns, c, f"k{i}", i, True) for i in range(2))
+        new = (_plain_stub(ns, c, "n0", 10, True), _plain_stub(ns, c, "n1", 11, c.choose([True, True], "second-new-operand-has-a-variable") == 0))
+        try:
+            me = Base(op if shape == 0 else "__add__", old, length=8)
+            r = me.make_like(op, new, length=8)
+        except (PathEnd, Undecided):
+            raise
+        except Exception as ex:  # noqa
+            import traceback
+            c.fail("Base.make_like[every-operation]/raises", f"{op}: {type(ex).__name__}: {ex} {traceback.format_exc()[-300:]}", kind="raises")
+            return "raised"
+        _post(c, f"Base.make_like[every-operation:{'same-op' if shape == 0 else 'from-another-node'}]", r, op, new, list(new), me.annotations, False, None, None, None, 8)
+        return op
+    return explore(body, {"budget_s": 600, "max_depth": 4000, "max_paths": 3000000, "anno_universe": None, "replay": replay_make_like_ops})
+
+
+def replay_make_like_ops(failure=None, _task=None):
+    """native: replace() through a node of every binary BV operation, the replaced operand's variable must leave and the new one arrive"""
+    import claripy
+    x, y, z = (claripy.BVS(n, 8, explicit_name=True) for n in ("mlo_x", "mlo_y", "mlo_z"))
+    bad = []
+    for op in non_leaf_operation_names():
+        f = getattr(x, op, None)
+        if f is None:
+            continue
+        try:
+            e = f(y)
+            if not isinstance(e, claripy.ast.Base) or e.depth < 2:
+                continue
+            r = claripy.replace(e, x, z)
+        except Exception:  # noqa
+            continue
+        want = frozenset(v for a in r.args if isinstance(a, claripy.ast.Base) for v in a.variables)
+        if isinstance(r, claripy.ast.Base) and r.depth > 1 and frozenset(r.variables) != want:
+            bad.append(f"replace(x.{op}(y), x, z) = {r} reports variables {sorted(r.variables)}, its arguments have {sorted(want)}")
+    return {"reproduced": bool(bad), "text": "; ".join(bad[:3]) or "replace() through every binary operation keeps the variables accurate"}
